@@ -531,8 +531,25 @@ func (self *Analyzer) TypeCheck(got ast.Type, expected ast.Type, options TypeChe
 
 			for expectedIdx, expectedParam := range expectedFnParams.Params {
 				var foundParam *ast.FunctionTypeParam = nil
-				for _, gotParam := range gotFnParams.Params {
+				for gotIdx, gotParam := range gotFnParams.Params {
 					if expectedParam.Name.Ident() == gotParam.Name.Ident() {
+						// Arguments are passed by position: a parameter of this name at another position is a different signature.
+						if gotIdx != expectedIdx {
+							return newCompatibilityErr(
+								diagnostic.Diagnostic{
+									Level:   diagnostic.DiagnosticLevelError,
+									Message: fmt.Sprintf("Parameter '%s: %s' is expected at position %d, found at position %d", expectedParam.Name.Ident(), expectedParam.Type, expectedIdx+1, gotIdx+1),
+									Notes:   nil,
+									Span:    gotFn.ParamsSpan,
+								},
+								&diagnostic.Diagnostic{
+									Level:   diagnostic.DiagnosticLevelHint,
+									Message: "Parameter expected due to this",
+									Notes:   nil,
+									Span:    expectedParam.Name.Span(),
+								},
+							)
+						}
 						foundParam = &gotParam
 						break
 					}
